@@ -13,6 +13,7 @@
 #include "aln_struct.h"
 #include "aln_mem.h"
 #include "stubs_msg.h"
+#include "meetup_spec.h"
 #include "aln_setup.c"
 #if KV_KB == 1
 #include "aln_seqprofile.c"
@@ -177,6 +178,122 @@ void h_c07_profiles(void)
         free(pa); if(pb){ free(pb); }
         KV_REACH();
 }
+/* backward == forward on reversed operands, for the profile kernels (profiles of the reversed sequences are built by the
+   real profile code as well) */
+void h_c07_profiles_mirror(void)
+{
+        struct aln_mem m, mm;
+        struct states f[KV_LB + 2], b[KV_LB + 2];
+        struct states in;
+        uint8_t ry[KV_ROWS + 1], rx_store[KV_LB + 2];
+        uint8_t* rx = rx_store + 1;
+        float *pa, *pb = NULL, *rpa, *rpb = NULL;
+        int i, j;
+        for(i = 0; i < 23; i++){
+                for(j = 0; j < 23; j++){ kv_subm_rows[i][j] = (i < KV_NSYM && j < KV_NSYM) ? kv_psets[KV_PSET][i][j] : 0.0f; }
+                kv_subm_ptr[i] = kv_subm_rows[i];
+        }
+        kv_ap.subm = kv_subm_ptr;
+        kv_ap.gpo = kv_pens[KV_PSET][0]; kv_ap.gpe = kv_pens[KV_PSET][1]; kv_ap.tgpe = kv_pens[KV_PSET][2];
+        kv_ap.nthreads = 1; kv_ap.score = 0.0f;
+        for(i = 0; i < KV_ROWS; i++){ kv_y[i] = kv_in_u8(); KV_ASSUME(kv_y[i] < KV_NSYM); }
+        for(i = 0; i < KV_LB; i++){ kv_x[i] = kv_in_u8(); KV_ASSUME(kv_x[i] < KV_NSYM); }
+        for(i = 0; i < KV_ROWS; i++){ ry[i] = kv_y[KV_ROWS - 1 - i]; }
+        for(i = 0; i < KV_LB; i++){ rx[i] = kv_x[KV_LB - 1 - i]; }
+        in.a  = (KV_IN == 0) ? 0.0f : NEG;
+        in.ga = (KV_IN == 1) ? 0.0f : NEG;
+        in.gb = (KV_IN == 2) ? 0.0f : NEG;
+        for(j = 0; j < KV_LB + 2; j++){ f[j].a = 7.25f; f[j].ga = 7.25f; f[j].gb = 7.25f; b[j] = f[j]; }
+        f[0] = in; b[0] = in;
+        pa = group_profile(kv_y, KV_ROWS, KV_KA, KV_KB);
+        rpa = group_profile(ry, KV_ROWS, KV_KA, KV_KB);
+        m.f = NULL; m.b = b; m.ap = &kv_ap; m.prof1 = pa; m.seq1 = NULL; m.sip = KV_KA;
+#if KV_KB == 1
+        m.seq2 = kv_x; m.prof2 = NULL;
+#else
+        pb = group_profile(kv_x, KV_LB, KV_KB, KV_KA);
+        rpb = group_profile(rx, KV_LB, KV_KB, KV_KA);
+        m.seq2 = NULL; m.prof2 = pb;
+#endif
+        m.starta = 0; m.enda = KV_ROWS; m.starta_2 = 0; m.enda_2 = KV_ROWS; m.startb = KV_SB; m.endb = KV_EB;
+        m.len_a = KV_ROWS; m.len_b = KV_LB; m.path = NULL; m.tmp_path = NULL; m.mode = ALN_MODE_FULL;
+        mm = m;
+        mm.f = f; mm.b = NULL; mm.prof1 = rpa;
+#if KV_KB == 1
+        mm.seq2 = rx;
+#else
+        mm.prof2 = rpb;
+#endif
+        mm.startb = KV_LB - KV_EB; mm.endb = KV_LB - KV_SB;
+#if KV_KB == 1
+        aln_seqprofile_backward(&m);
+        aln_seqprofile_foward(&mm);
+#else
+        aln_profileprofile_backward(&m);
+        aln_profileprofile_foward(&mm);
+#endif
+        for(j = 0; j <= KV_EB - KV_SB; j++){
+                KV_CHECK(FBITS(b[KV_EB - j].a) == FBITS(f[mm.startb + j].a), "profile kernels: backward == forward on reversed operands (aligned state)");
+                KV_CHECK(FBITS(b[KV_EB - j].ga) == FBITS(f[mm.startb + j].ga), "profile kernels: backward == forward on reversed operands (gap-in-row-group state)");
+                KV_CHECK(FBITS(b[KV_EB - j].gb) == FBITS(f[mm.startb + j].gb), "profile kernels: backward == forward on reversed operands (gap-in-column-group state)");
+        }
+        KV_REACH();
+}
+void h_c07_profiles_meetup(void)
+{
+        struct aln_mem m;
+        struct states f[KV_LB + 2], b[KV_LB + 2];
+        int old_cor[5];
+        int meet = -7, t = -7, i, j;
+        float score = 0.0f, k = (float)(KV_KA * KV_KB);
+        struct kv_meet r;
+        float *pa, *pb = NULL;
+        for(i = 0; i < 23; i++){
+                for(j = 0; j < 23; j++){ kv_subm_rows[i][j] = (i < KV_NSYM && j < KV_NSYM) ? kv_psets[KV_PSET][i][j] : 0.0f; }
+                kv_subm_ptr[i] = kv_subm_rows[i];
+        }
+        kv_ap.subm = kv_subm_ptr;
+        kv_ap.gpo = kv_pens[KV_PSET][0]; kv_ap.gpe = kv_pens[KV_PSET][1]; kv_ap.tgpe = kv_pens[KV_PSET][2];
+        kv_ap.nthreads = 1; kv_ap.score = 0.0f;
+        for(i = 0; i < KV_ROWS; i++){ kv_y[i] = (uint8_t)(i % KV_NSYM); }
+        for(i = 0; i < KV_LB; i++){ kv_x[i] = (uint8_t)((i + 1) % KV_NSYM); }
+        for(j = 0; j < KV_LB + 2; j++){
+                f[j].a = kv_state_value(); f[j].ga = kv_state_value(); f[j].gb = kv_state_value();
+                b[j].a = kv_state_value(); b[j].ga = kv_state_value(); b[j].gb = kv_state_value();
+        }
+        pa = group_profile(kv_y, KV_ROWS, KV_KA, KV_KB);
+        m.f = f; m.b = b; m.ap = &kv_ap; m.prof1 = pa; m.seq1 = NULL; m.sip = KV_KA;
+#if KV_KB == 1
+        m.seq2 = kv_x; m.prof2 = NULL;
+#else
+        pb = group_profile(kv_x, KV_LB, KV_KB, KV_KA);
+        m.seq2 = NULL; m.prof2 = pb;
+#endif
+        m.starta = 0; m.enda = 1; m.starta_2 = 1; m.enda_2 = KV_ROWS; m.startb = KV_SB; m.endb = KV_EB;
+        m.len_a = KV_ROWS; m.len_b = KV_LB; m.path = NULL; m.tmp_path = NULL; m.mode = ALN_MODE_FULL;
+        old_cor[0] = 0; old_cor[1] = KV_ROWS; old_cor[2] = KV_SB; old_cor[3] = KV_EB; old_cor[4] = 0;
+        /* sum-of-pairs penalties of the two groups (see h_c07_profiles) */
+        r = spec_meetup(f, b, KV_SB, KV_EB, KV_SB == 0, KV_EB == KV_LB, kv_ap.gpo * k, kv_ap.gpo * k, kv_ap.gpe * k, kv_ap.tgpe * k);
+#if KV_KB == 1
+        aln_seqprofile_meetup(&m, old_cor, &meet, &t, &score);
+#else
+        aln_profileprofile_meetup(&m, old_cor, &meet, &t, &score);
+#endif
+        KV_CHECK(meet == r.c && t == r.t, "profile meetup returns the first best (column, transition) of the meet-in-the-middle rule");
+        KV_CHECK(FBITS(score) == FBITS(r.score), "profile meetup returns the score of that candidate");
+        free(pa); if(pb){ free(pb); }
+        KV_REACH();
+}
 #ifdef KV_NATIVE
-int main(void){ h_c07_profiles(); return kv_failed ? 1 : 0; }
+int main(void)
+{
+#if defined(KV_ENTRY_MEETUP)
+        h_c07_profiles_meetup();
+#elif defined(KV_ENTRY_MIRROR)
+        h_c07_profiles_mirror();
+#else
+        h_c07_profiles();
+#endif
+        return kv_failed ? 1 : 0;
+}
 #endif
